@@ -65,9 +65,9 @@ CHECKS = {
     "C15": dict(
         engine="e2e",
         category="exploration",
-        technique="history testing of the anti-amplification budget (proptest) plus end-to-end wire-tap accounting: real dquic server over simnet with a client whose address stays unvalidated",
-        text="Unit stage: 60k (5M) histories of receive / budgeted send (balance -> Constraints::constrain -> commit -> on_sent, optionally overdrawn by padding) / grant / abort on the real AntiAmplifier: the allowance never exceeds 3x received minus sent and never wraps. End-to-end stage: 300 (30k) runs of the real server behind a network that drops the client's datagrams from index 1..3 on (forever, or for a short window), with generated latency, MSS and max_segments; the wire tap samples bytes received from / sent to the client address at every server send until a client Handshake/1-RTT packet is delivered: sent <= 3 x received; with a finite window the transfer must resume and complete.",
-        note="Address validation is assumed to happen no earlier than delivery of the first client datagram carrying a Handshake or 1-RTT packet (no Retry/tokens in these runs). Lock-free interleavings inside AntiAmplifier are not explored.",
+        technique="history testing of the anti-amplification budget (proptest), real-thread stress of the lock-free budget with an exact quiescence oracle, plus end-to-end wire-tap accounting: real dquic server over simnet with a client whose address stays unvalidated",
+        text="Unit stage: 60k (5M) histories of receive / budgeted send (balance -> Constraints::constrain -> commit -> on_sent, optionally overdrawn by padding) / grant / abort on the real AntiAmplifier: the allowance never exceeds 3x received minus sent and never wraps. Thread stage (aa-threads): 400 (20k) cases in which two real receive threads (on_rcvd, generated datagram sizes) race one burst thread (balance -> on_sent) on one AntiAmplifier; every observed allowance is bounded by 3x what had been announced, and at quiescence sent == 3x received exactly (a lost or invented update shows). End-to-end stage: 600 (30k) runs of the real server behind a network that drops the client's datagrams from index 1..3 on (forever, or for a short window), with generated latency, MSS and max_segments; the wire tap samples bytes received from / sent to the client address at every server send until a client Handshake/1-RTT packet is delivered: sent <= 3 x received; with a finite window the transfer must resume and complete.",
+        note="Address validation is assumed to happen no earlier than delivery of the first client datagram carrying a Handshake or 1-RTT packet (no Retry/tokens in these runs). In the thread stage the interleaving is the operating system's, not the seed's: the oracle is exact, detection and replay are probabilistic; grant/abort are not raced.",
         design_ref="DESIGN.md §3 C15",
     ),
     "C16": dict(
